@@ -868,8 +868,51 @@ func c19Multiset(ff []gts.Feature) string {
 	return strings.Join(xs, " ")
 }
 
+// c19SpanCmp: the location order where it is determined WITHOUT gts.LocationLess: two contiguous
+// locations (point, between-site, range, ambiguous span; a complement is ordered like what it wraps)
+// with DIFFERENT normalised spans compare like their (start, end), lexicographically (the comparison
+// already stated for rng.compare).  0 = not determined here: a multi-part location, or equal spans
+// (ties — the partial-marker count of the code — are unconstrained by the property).
+func c19SpanCmp(a, b gts.Location) int {
+	span := func(l gts.Location) (int, int, bool) {
+		for {
+			c, ok := l.(gts.Complemented)
+			if !ok {
+				break
+			}
+			l = c.Location
+		}
+		switch v := l.(type) {
+		case gts.Between:
+			return int(v), int(v), true
+		case gts.Point:
+			return int(v), int(v) + 1, true
+		case gts.Ranged:
+			s, e := c19Norm(v.Start, v.End)
+			return s, e, true
+		case gts.Ambiguous:
+			s, e := c19Norm(v.Start, v.End)
+			return s, e, true
+		}
+		return 0, 0, false
+	}
+	s1, e1, ok1 := span(a)
+	s2, e2, ok2 := span(b)
+	switch {
+	case !ok1 || !ok2:
+		return 0
+	case s1 < s2 || (s1 == s2 && e1 < e2):
+		return -1
+	case s1 > s2 || e1 > e2:
+		return 1
+	}
+	return 0
+}
+
 // c19CheckTable: sources first, the rest in non-decreasing location order (no later feature
-// is LocationLess than an earlier one).
+// is LocationLess than an earlier one).  The order is not taken from gts.LocationLess alone (Insert
+// itself searches with it: a defect of the comparison would move the table and its judge together):
+// wherever c19SpanCmp determines it, a later feature must not lie below an earlier one by its span.
 func c19CheckTable(ff []gts.Feature) string {
 	i := 0
 	for i < len(ff) && ff[i].Key == "source" {
@@ -883,6 +926,9 @@ func c19CheckTable(ff []gts.Feature) string {
 	}
 	for a := 0; a < len(rest); a++ {
 		for b := a + 1; b < len(rest); b++ {
+			if c19SpanCmp(rest[b].Loc, rest[a].Loc) < 0 {
+				return fmt.Sprintf("non-source features %d and %d are out of order by their spans (start, end)", a, b)
+			}
 			if gts.LocationLess(rest[b].Loc, rest[a].Loc) {
 				return fmt.Sprintf("non-source features %d and %d are out of order", a, b)
 			}
@@ -962,6 +1008,20 @@ func c19Order(r *Run, a, b, c gts.Location, ops bool) {
 	line := "loc.less " + encLoc(a) + " " + encLoc(b) + " ; loc.less " + encLoc(b) + " " + encLoc(c) + " ; loc.less " + encLoc(a) + " " + encLoc(c)
 	ab, ba, bc, cb, ac, ca := less(a, b), less(b, a), less(b, c), less(c, b), less(a, c), less(c, a)
 	r.eval("ord|"+line, ab || bc || ac)
+	// the anchor: on contiguous locations with different spans the order is the span order
+	for _, q := range []struct {
+		x, y gts.Location
+		got  bool
+	}{{a, b, ab}, {b, a, ba}, {b, c, bc}, {c, b, cb}, {a, c, ac}, {c, a, ca}} {
+		if cmp := c19SpanCmp(q.x, q.y); cmp != 0 {
+			r.count("order/anchored by the spans")
+			if q.got != (cmp < 0) {
+				r.fail(Failure{Oracle: "LocationLess on contiguous locations with different spans is the lexicographic comparison of their normalised (start, end)",
+					Op: "loc.less " + encLoc(q.x) + " " + encLoc(q.y), Got: b01(q.got), Want: b01(cmp < 0)})
+				return
+			}
+		}
+	}
 	if less(a, a) {
 		r.fail(Failure{Oracle: "LocationLess is irreflexive", Op: "loc.less " + encLoc(a) + " " + encLoc(a), Got: "1", Want: "0"})
 	}
@@ -1192,6 +1252,9 @@ func propC19(r *Run) {
 				line := "feat.less " + encFeature(p[0]) + " " + encFeature(p[1])
 				out := r.op(line)
 				want := gts.LocationLess(p[0].Loc, p[1].Loc)
+				if cmp := c19SpanCmp(p[0].Loc, p[1].Loc); cmp != 0 {
+					want = cmp < 0 // determined by the spans: not taken from LocationLess
+				}
 				if (p[0].Key == "source") != (p[1].Key == "source") {
 					want = p[0].Key == "source"
 				}
